@@ -139,11 +139,14 @@ func (r *replicator) GetQueue() []cid.Cid {
 	r.muProcess.Lock()
 	defer r.muProcess.Unlock()
 
-	fetching := make([]cid.Cid, r.queue.Len())
-	i := 0
-	for c := range r.tasks {
-		fetching[i] = c
-		i++
+	// only unfinished tasks belong to the queue: finished ones stay in r.tasks forever
+	fetching := make([]cid.Cid, 0, r.queue.Len())
+	for c, state := range r.tasks {
+		if state == stateFetched {
+			continue
+		}
+
+		fetching = append(fetching, c)
 	}
 
 	return fetching
